@@ -100,11 +100,21 @@ def parseStmt (ws : List String) : Option Stmt :=
   | ws => (parseUpd ws).map .upd
 
 inductive DEv where
-  | one (e : SEv)
+  | one (e : CEv)
   | script (ss : List Stmt)
 
+/-- `@a,v` in front of an event: the client sends this session state (aliases, config) along -/
+def parseCs (w : String) : Option (Nat × Nat) :=
+  if w.startsWith "@" then
+    match (w.drop 1).toString.splitOn "," with
+    | [a, v] => do pure (← a.toNat?, ← v.toNat?)
+    | _ => none
+  else none
+
 def parseSEv (s : String) : Option DEv :=
-  let ws := (trim s).splitOn " "
+  let ws0 := (trim s).splitOn " "
+  let cs : Option (Nat × Nat) := ws0.head?.bind parseCs
+  let ws := if cs.isSome then ws0.drop 1 else ws0
   match ws.getLast? with
   | none => none
   | some fl =>
@@ -116,7 +126,8 @@ def parseSEv (s : String) : Option DEv :=
     let body := " ".intercalate ws.dropLast
     let parts := (body.splitOn "; ").map (fun p => parseStmt ((trim p).splitOn " "))
     match flags, parts with
-    | some (cf, bf, stay), [some st] => some (.one { stmt := st, cf := cf, bf := bf, stay := stay, t0 := 0 })
+    | some (cf, bf, stay), [some st] =>
+      some (.one { cs := cs, ev := { stmt := st, cf := cf, bf := bf, stay := stay, t0 := 0 } })
     | some (false, false, false), ps =>
       if ps.length ≥ 2 && ps.all Option.isSome then some (.script (ps.filterMap id)) else none
     | _, _ => none
@@ -153,7 +164,7 @@ def level2 (mode : String) (hdr : String) (evs : List String) : String :=
     if evs'.length != evs.length then "bad-op" else
     let (_, outs) := evs'.foldl (fun (acc : Sys × List String) e =>
         let r : Option (Sys × SOut) := match e with
-          | .one e => some (acc.1.step ver e)
+          | .one e => some (acc.1.stepC ver e)
           | .script ss => acc.1.stepScript ver ss
         match r with
         | none => (acc.1, "unmodelled" :: acc.2)
